@@ -287,6 +287,20 @@ def run(ctx):
         if msg:
             ctx.violation("template instantiation: " + msg,
                           {"kind": "template_call", "text": text, "kwargs": {pn: val}, "subst_text": subst_text})
+    # a whole-array parameter given as nested lists of large Python integers; the operations do arithmetic on its
+    # elements (the array is declared float, so the substituted script computes in floating point: no overflow)
+    for _ in range(ctx.n(10, 100)):
+        a, b = ctx.rng.choice([(2 ** 62, 2 ** 32), (2 ** 40 + 1, 2 ** 33), (3 ** 39, 7), (2 ** 62, 3)])
+        head = "name t\nversion 1.0\n\n"
+        body = "float array U[1, 2] =\n    %s\nDgate(U[0]*U[1], U[1]**2, 3*U[0]) | 0\nG(U) | [0, 1]\n"
+        text = head + body % "{U}"
+        subst_text = head + body % ("(%d), (%d)" % (a, b))
+        ctx.count("whole-array-parameter-of-large-integers")
+        ctx.case((text, a, b), nontrivial=True)
+        msg = oracles.o_template_call(text, {"U": [[a, b]]}, subst_text, raw=True)
+        if msg:
+            ctx.violation("template instantiation: " + msg,
+                          {"kind": "template_call", "text": text, "kwargs": {"U": [[a, b]]}, "subst_text": subst_text, "raw": True})
     common.loads_corr(ctx, texts, "LOADS(template)")
     call_corr(ctx, corr)
     substp_corr(ctx, substp)
